@@ -1867,3 +1867,51 @@ T('k18_listing_rows_zip_keys_constant', ['C18'], (META, "DEFAULT_PAGE_TITLE = 'C
   (META, "        ret.append({'key': key, 'value': trunc_val})", "        ret.append(dict(zip(_ROW_KEYS, (key, trunc_val))))"))
 B('k18_listing_rows_zip_keys_constant_renamed', ['C18'], 'R18.d', (META, "DEFAULT_PAGE_TITLE = 'Clastic'\n", "DEFAULT_PAGE_TITLE = 'Clastic'\n_ROW_KEYS = ('name', 'shown')\n"),
   (META, "        ret.append({'key': key, 'value': trunc_val})", "        ret.append(dict(zip(_ROW_KEYS, (key, trunc_val))))"))
+
+
+# ---------------------------------------------------------------------------------------------------------------- round g
+# R18.f provenance: a value the views take by *name* through the injector can be an object of the host (the dispatching
+# application's resources are layered over the meta application's own at request time -- read from BoundRoute.execute /
+# Application.dispatch); it reaches a page context only as a text / after a type test, or is read from the meta
+# application's own attribute instead.  (script_root is bound by the meta application's own middleware: exempt.)
+_GM_SIG = "    def get_main(self, request, _application, _route, script_root):\n"
+_GM_CTX = "        full_ctx = {'page_title': self.page_title}\n"
+_GM_KW = "                  'script_root': script_root}\n        for peri in self.peripherals:"
+_BP_CTX = "    def get_context(self, _meta_application):\n        start_time = _meta_application.resources['_meta_start_time']\n        return {'abs_start_time': str(start_time),\n"
+B('k18g_injected_title_in_context', ['C18'], 'R18.f', (META, _GM_SIG, "    def get_main(self, request, _application, _route, script_root, page_title):\n"),
+  (META, _GM_CTX, "        full_ctx = {'page_title': page_title}\n"))
+B('k18g_injected_title_stored_later', ['C18'], 'R18.f', (META, _GM_SIG, "    def get_main(self, request, _application, _route, script_root, page_title):\n"),
+  (META, "        return full_ctx\n", "        full_ctx['window_title'] = page_title\n        return full_ctx\n"))
+B('k18g_injected_start_time_in_context', ['C18'], 'R18.f', (META, _GM_SIG, "    def get_main(self, request, _application, _route, script_root, _meta_start_time):\n"),
+  (META, _GM_CTX, "        full_ctx = {'page_title': self.page_title}\n        full_ctx.setdefault('started', _meta_start_time)\n"))
+B('k18g_injected_foreign_name_in_context', ['C18'], 'R18.f', (META, _GM_SIG, "    def get_main(self, request, _application, _route, script_root, site_name=None):\n"),
+  (META, _GM_CTX, "        full_ctx = {'page_title': self.page_title, 'site': [site_name]}\n"))
+B('k18g_injected_title_handed_to_peripheral', ['C18'], 'R18.f', (META, _GM_SIG, "    def get_main(self, request, _application, _route, script_root, page_title):\n"),
+  (META, _GM_KW, "                  'script_root': script_root,\n                  'page_title': page_title}\n        for peri in self.peripherals:"),
+  (META, _BP_CTX, "    def get_context(self, _meta_application, page_title):\n        start_time = _meta_application.resources['_meta_start_time']\n"
+                  "        return {'abs_start_time': str(start_time), 'title': page_title,\n"))
+B('k18g_injected_title_one_arm_converted', ['C18'], 'R18.f', (META, _GM_SIG, "    def get_main(self, request, _application, _route, script_root, page_title):\n"),
+  (META, _GM_CTX, "        full_ctx = {'page_title': page_title if page_title else repr(page_title)}\n"))
+T('k18g_injected_title_as_text', ['C18'], (META, _GM_SIG, "    def get_main(self, request, _application, _route, script_root, page_title):\n"),
+  (META, _GM_CTX, "        full_ctx = {'page_title': '%s' % (page_title,)}\n"))
+T('k18g_injected_title_rebound_as_text', ['C18'], (META, _GM_SIG, "    def get_main(self, request, _application, _route, script_root, page_title):\n"),
+  (META, _GM_CTX, "        page_title = repr(page_title)\n        full_ctx = {'page_title': page_title}\n"))
+T('k18g_injected_title_type_tested', ['C18'], (META, _GM_SIG, "    def get_main(self, request, _application, _route, script_root, page_title):\n"),
+  (META, _GM_CTX, "        full_ctx = {'page_title': page_title if isinstance(page_title, str) else self.page_title}\n"))
+T('k18g_injected_title_unused_in_context', ['C18'], (META, _GM_SIG, "    def get_main(self, request, _application, _route, script_root, page_title):\n"),
+  (META, _GM_CTX, "        full_ctx = {'page_title': self.page_title, 'title_overridden': page_title is not self.page_title}\n"))
+T('k18g_injected_title_handed_to_peripheral_as_text', ['C18'], (META, _GM_SIG, "    def get_main(self, request, _application, _route, script_root, page_title):\n"),
+  (META, _GM_KW, "                  'script_root': script_root,\n                  'page_title': str(page_title)}\n        for peri in self.peripherals:"),
+  (META, _BP_CTX, "    def get_context(self, _meta_application, page_title):\n        start_time = _meta_application.resources['_meta_start_time']\n"
+                  "        return {'abs_start_time': str(start_time), 'title': page_title,\n"))
+T('k18g_script_root_from_own_middleware', ['C18'], (META, _GM_CTX, "        full_ctx = {'page_title': self.page_title, 'script_root': script_root}\n"))
+# the layering is read, not assumed: with the bound route's own resources applied last the meta application's own title
+# cannot be shadowed (a different framework, judged by other properties) ...
+_EXEC_LAYERS = "        injectables.update(self.resources)\n        injectables.update(kwargs)\n        return inject(self._execute, injectables)\n"
+T('k18g_own_resources_applied_last', ['C18'], ('clastic/route.py', _EXEC_LAYERS, "        injectables.update(kwargs)\n        injectables.update(self.resources)\n        return inject(self._execute, injectables)\n"),
+  (META, _GM_SIG, "    def get_main(self, request, _application, _route, script_root, page_title):\n"),
+  (META, _GM_CTX, "        full_ctx = {'page_title': page_title}\n"))
+# ... and an equivalent spelling of today's layering keeps the judgement
+B('k18g_layers_spelled_as_one_dict', ['C18'], 'R18.f', ('clastic/route.py', _EXEC_LAYERS, "        injectables = dict(injectables, **self.resources)\n        return inject(self._execute, dict(injectables, **kwargs))\n"),
+  (META, _GM_SIG, "    def get_main(self, request, _application, _route, script_root, page_title):\n"),
+  (META, _GM_CTX, "        full_ctx = {'page_title': page_title}\n"))
